@@ -230,7 +230,7 @@ func c02Judge(w *mon.W, id string, x *oracle.Loc, parent string, viaParse bool) 
 			w.Add("records_padded_to_80_columns", 1)
 		}
 		var s poly.Sequence
-		if p := mon.Try(func() { buf := []byte(rec); s = genbank.Parse(buf); scribble(buf) }); p != "" {
+		if p := mon.Try(func() { buf := []byte(rec); s = genbank.Parse(buf); unchangedThenScribble(w, id, "genbank.Parse", buf, rec) }); p != "" {
 			w.Violation(id, fmt.Sprintf("genbank.Parse of a record with location %s: %s", clip(text, 120), p), rep)
 		} else if len(s.Features) != 1 || s.Sequence != parent {
 			w.Violation(id, fmt.Sprintf("genbank.Parse of a minimal record with location %s returned %d features, sequence length %d (want 1, %d)", clip(text, 120), len(s.Features), len(s.Sequence), len(parent)), rep)
@@ -554,7 +554,7 @@ func c02Siblings(w *mon.W, id string, r *rand.Rand) {
 	}
 	rep := map[string]any{"record": rec}
 	var s poly.Sequence
-	if p := mon.Try(func() { buf := []byte(rec); s = genbank.Parse(buf); scribble(buf) }); p != "" {
+	if p := mon.Try(func() { buf := []byte(rec); s = genbank.Parse(buf); unchangedThenScribble(w, id, "genbank.Parse", buf, rec) }); p != "" {
 		w.Violation(id, "genbank.Parse of a record with sibling features: "+p, rep)
 		return
 	}
